@@ -72,6 +72,15 @@ def shard_solver(ctx, k, payload):
         sc, _ = scenario.build(p, data.draw)
         # pad the file with declared-but-never-read inputs of the participating forms
         v = realcamp.make_variant(data.draw, sc, ['prompt_total', 'prompt_total', 'prompt_refuse', 'full'])
+        if v['prompt'] is not None and v['inputs'] and data.draw(st.integers(0, 4)) == 0:
+            # a value in the file that its input rejects, with the prompt enabled: the file supplies it, so it is
+            # not to be asked for (the solve stops with the error naming it)
+            bad = {'bool': 'maybe', 'int': 'x1', 'float': 'abc', 'enum': 'NoSuchMember'}
+            cands = [k_ for k_ in sorted(v['inputs']) if input_object(v['year'], k_) is not None and catalog.input_kind(input_object(v['year'], k_)) in bad]
+            if cands:
+                k_ = data.draw(st.sampled_from(cands))
+                v['inputs'] = dict(v['inputs'], **{k_: bad[catalog.input_kind(input_object(v['year'], k_))]})
+                ctx.count('solver:invalid_file_value_with_prompt')
         r = realcamp.run_variant(v)
         ctx.case()
         case = {'part': 'solver', 'variant': v}
